@@ -138,8 +138,11 @@ def r13_2(cx):
     cx.floor('R13.2', 'infallible search methods with a try_ twin', n, 10 if cx.config in ('default', 'std', 'logging') else 9)
 
 
-def std_gate(x):
-    return is_call(x, r'MatchKind::is_standard$') and is_call(x[2][0], r'Automaton::match_kind$')
+def std_gate_of(b):
+    """aut.match_kind().is_standard(), with the kind possibly bound to a local first"""
+    def gate(x):
+        return is_call(x, r'MatchKind::is_standard$') and is_call(peel_all(expand_vars(b, x[2][0])), r'Automaton::match_kind$')
+    return gate
 
 
 def r13_3(cx):
@@ -156,7 +159,7 @@ def r13_3(cx):
         for p, b in f.bodies.items():
             if p in U:
                 continue
-            gates = bool_gates(b, std_gate)
+            gates = bool_gates(b, std_gate_of(b))
             cut = [e for g in gates for e in g[2]]
             live = b.reach(0, cut_edges=cut)
             for blk, tg in cg.callees(p):
@@ -199,7 +202,7 @@ def r13_3(cx):
                 agg = b.rvalue_term(r, 0, blk)
                 inp = peel_all(expand_vars(b, agg[3].get('input'))) if isinstance(agg[3], dict) else None
                 aut = peel_all(expand_vars(b, agg[3].get('aut'))) if isinstance(agg[3], dict) else None
-                g1 = [e for g in bool_gates(b, std_gate) for e in g[2]]
+                g1 = [e for g in bool_gates(b, std_gate_of(b)) for e in g[2]]
                 def anch_of(x):
                     x = expand_vars(b, x)
                     return is_call(x, r'Input::get_anchored$') and peel_all(expand_vars(b, x[2][0])) == inp
